@@ -17,6 +17,7 @@ compared statement by statement / bit by bit with the independent interpreter
        serdes.context *is* serdes.cur_context and has the type last set.
 """
 import gc
+import itertools
 import io as _io
 
 import mc
@@ -492,6 +493,20 @@ def run_case(program, choices, t=None, trace=False, faults=True):
         c = _nav(d, site["container"])
         del c[site["key"]]
         v = run_serialiser(program, d, None, defaults=defaults)
+        if res2.error is None and not site["is_list"]:
+            # the same description with one extra, never-used value in the same dictionary:
+            # the default must not "pay for" the unused value
+            d3 = to_real(res.tree, typed=False)
+            c3 = _nav(d3, site["container"])
+            del c3[site["key"]]
+            if isinstance(c3, dict) and "z" not in c3:
+                c3["z"] = 0
+                v3 = run_serialiser(program, d3, None, defaults=defaults)
+                e3 = v3.exc or v3.verify_exc
+                if type(e3) is not bx.UnusedTargetError:
+                    problems.append("needed value %r supplied by a default and an extra unused value in the same dictionary: serialiser gave %s, expected UnusedTargetError" % (site["target"], _exc_name(e3)))
+                if t is not None:
+                    t.count("variant_default_plus_unused")
         if res2.error is None:
             e = v.exc or v.verify_exc
             if e is not None:
@@ -579,6 +594,41 @@ def _shard(arg):
     return t
 
 
+def sibling_family():
+    """Lists of 2-3 typed sub-descriptions whose entries may be equal to each other or empty
+    (programs far above the node bound of the grammar enumeration)."""
+    bodies = [
+        (("settype", 1),),
+        (("settype", 1), ("prim", "bool", "y")),
+        (("prim", "bool", "y"), ("settype", 1)),
+        (("settype", 2), ("prim", "uint", "y")),
+        (("declare", "y"), ("settype", 1)),
+        (("settype", 1), ("declare", "y"), ("prim", "bool", "y")),
+        (("prim", "bool", "y"),),
+    ]
+    progs = []
+    for k in (2, 3):
+        for combo in itertools.product(range(len(bodies)), repeat=k):
+            progs.append((("declare", "x"),) + tuple(("sub", "x", bodies[b]) for b in combo))
+            if k == 2:
+                progs.append((("settype", 2), ("declare", "x")) + tuple(("sub", "x", bodies[b]) for b in combo))
+    return progs
+
+
+def _shard_siblings(arg):
+    _, w, n = arg
+    t = Tally()
+    for program in sibling_family()[w::n]:
+        program = norm_program(program)
+        t.count("sibling_programs")
+        for res in M.all_runs(program):
+            t.count("runs")
+            problems = run_case(program, res.choices, t, trace=False, faults=True)
+            if problems:
+                t.violation(problems[0], {"program": program, "choices": list(res.choices)})
+    return t
+
+
 def run(ctx):
     total = Tally()
     g = grammar("full")
@@ -619,9 +669,13 @@ def run(ctx):
     gc.freeze()
     try:
         res = pool.map_shards(_shard, shards)
+        res2 = pool.map_shards(_shard_siblings, [("sib", w, 32) for w in range(32)])
     finally:
         gc.unfreeze()
     total.merge(res)
+    total.merge(res2)
+    if total.n["sibling_programs"] != len(sibling_family()):
+        total.error("ran %d of %d sibling-family programs" % (total.n["sibling_programs"], len(sibling_family())))
 
     exhaustive = True
     if total.n["programs_in_shard"] != expected_enumerated and not total.violation_count:
